@@ -10,9 +10,10 @@ import (
 )
 
 type populator struct {
-	i     *interpreter
-	n     int
-	stack map[string]int
+	i      *interpreter
+	n      int
+	nslice int
+	stack  map[string]int
 }
 
 func (p *populator) next() int { p.n++; return p.n }
@@ -53,7 +54,9 @@ func (p *populator) fill(t types.Type, depth int) value {
 			return zero(t)
 		}
 		p.stack[key]++
-		out := make([]value, 2)
+		// lengths 1, 2, 3, 1, ... so that neighbouring slice fields differ in length
+		p.nslice++
+		out := make([]value, 1+p.nslice%3)
 		for k := range out {
 			out[k] = p.fill(u.Elem(), depth+1)
 		}
